@@ -19,7 +19,12 @@ package lintcmd
 // per-copy suffix) - one `go list -export` compile per ~64 variants. Independence of the copies
 // is itself checked (every package carries an unchanged copy of each base whose report must equal
 // the base's own) and, besides, variants are re-run in "isolated" mode (one variant = one
-// package): a covering subset in the quick tier, all of them in the thorough tier.
+// package): a covering subset in the quick tier, all single-name variants in the thorough tier.
+//
+// Cost is dominated by `go list -export` (one compile per package) and by process start, so the
+// work is cut into modules that run 16 at a time; a time budget stops the enumeration
+// (exhaustive:false), except that the first 16 modules are always completed so that an
+// overloaded machine gives a small result instead of an empty one.
 
 import (
 	"bytes"
@@ -639,22 +644,26 @@ func c10Chunk(vs []c10Variant, perPkg, perMod int, mode string, controls bool, f
 func c10RunAll(bin, root string, mods []*c10Module, res *vx.Result, par int, deadline time.Time) {
 	var wg sync.WaitGroup
 	sem := make(chan struct{}, par)
-	for _, m := range mods {
-		if res.Expired() {
+	// The first wave (as many modules as run in parallel) is always completed, however slow the
+	// machine is, so that an overloaded machine yields a small result rather than an empty one;
+	// everything else stops at the deadline.
+	late := time.Now().Add(4 * time.Until(deadline))
+	for i, m := range mods {
+		dl := deadline
+		if i < par {
+			dl = late
+		}
+		if time.Now().After(dl) {
 			m.skipped = "budget"
 			continue
 		}
 		wg.Add(1)
 		sem <- struct{}{}
-		go func(m *c10Module) {
+		go func(m *c10Module, dl time.Time) {
 			defer wg.Done()
 			defer func() { <-sem }()
-			if res.Expired() {
-				m.skipped = "budget"
-				return
-			}
-			c10RunModule(bin, root, m, res, deadline)
-		}(m)
+			c10RunModule(bin, root, m, res, dl)
+		}(m, dl)
 	}
 	wg.Wait()
 }
@@ -774,9 +783,8 @@ func TestVerifC10(t *testing.T) {
 		controls = append(controls, c...)
 		trailing = append(trailing, tr...)
 	}
-	// smallest first: reason before none, bases interleaved by the stable sort
-	sort.SliceStable(singles, func(i, j int) bool { return singles[i].Reason && !singles[j].Reason })
-	sort.SliceStable(pairs, func(i, j int) bool { return pairs[i].Reason && !pairs[j].Reason })
+	// order: all single-name variants (base by base, reason before none), the controls, then the
+	// pairs; the representative of a class of disagreements is its first variant in this order
 	first := append(append(append([]c10Variant(nil), singles...), controls...), trailing...)
 	all := append(append([]c10Variant(nil), first...), pairs...)
 	res.Count("variants_directive_in_full_space", int64(total))
